@@ -265,6 +265,7 @@ def run(ctx: C.Ctx):
     spellings(ctx, reqs, pend)
     inheritance_histories(ctx, reqs, pend)
     recursive_classes(ctx, reqs, pend)
+    member_histories(ctx, reqs, pend)
     if ctx.model_available:
         outs = ctx.driver.run(reqs)
         for (case, impl_out, built), o in zip(pend, outs):
@@ -677,6 +678,155 @@ def recursive_classes(ctx, reqs, pend):
                         check_rt(ctx, 'recursive:list', case, ('ok', y_), x, src, key, pre)
                 else:
                     check_rt(ctx, 'recursive:list', case, out if out[0] == 'err' else ('err', ValueError(f'{len(out[1])} elements')), x, src, key, pre)
+        finally:
+            built.close()
+
+
+# --------------------------------------------------------------------------- Union members used on their own before / between uses of the main class
+
+MH_BASE = 5_000_000
+UNION_WRAPS = ['bare', 'bare', 'optional', 'list', 'dictval', 'list-of-optional', 'vtuple']
+TAGGING = ['own-tags', 'own-tags+tag-key', 'auto', 'auto+tag-key']
+
+
+def member_case(rng):
+    """a v1 main class with a field holding a Union of 2-3 dataclasses (bare, Optional, list, dict value, list of Optional, variadic tuple)
+    next to 0-3 other fields, and a history in which the member classes are also serialised ON THEIR OWN (asdict / to_dict / to_json) before
+    the main class is serialised for the first time, or between two uses of it.
+    tagging: the members declare a tag of their own and the main class leaves the tag key alone / sets tag_key; or the members declare no tag
+    and the main class sets auto_assign_tags (/ and tag_key).
+    member style 'plain': no Meta besides the tag, one-word field names (used on its own the class is dumped under the default transform, which
+    leaves such names alone — under PASCAL it does not, so that pair is left out: recorded finding shared-nested-config-leak); 'same-settings':
+    the member declares the main class's own (v1, v1_key_case, dump transform) itself, any field names."""
+    o_m = gen.Opts(meta_keys=[], leaves=gen.LEAVES_DEFAULT + ['bytes', 'bytearray'], meta_prob=0.0, wizard_prob=0.5, py_wizard_prob=0.0, max_fields=2,
+                   allow_cls=False)
+    o_r = gen.Opts(meta_keys=[], leaves=gen.LEAVES_DEFAULT + ['bytes', 'bytearray'], meta_prob=0.0, wizard_prob=0.8, py_wizard_prob=0.0, max_fields=3,
+                   allow_tagged_union=False)
+    tagging = rng.choice(TAGGING)
+    style = rng.choice(['plain', 'same-settings'])
+    meta, pair = _pair_meta(rng)
+    while style == 'plain' and 'PASCAL' in pair:
+        meta, pair = _pair_meta(rng)
+    members = []
+    for _ in range(rng.randint(2, 3)):
+        m = strip_shapes(gen.gen_cls(rng, rng.choice([0, 0, 1]), o_m))
+        if style == 'plain':
+            words = rng.sample(gen.WORDS, len(m['info']['fields']))
+            ren = {f['name']: w for f, w in zip(m['info']['fields'], words)}
+            for f in m['info']['fields']:
+                f['name'] = ren[f['name']]
+            m['ftys'] = [[ren[n_], ft] for n_, ft in m['ftys']]
+        mm = dict(meta) if style == 'same-settings' else {}
+        if tagging.startswith('own-tags'):
+            mm['tag'] = model.fresh('tag')
+        m['info']['meta'] = mm or None
+        members.append(m)
+    ty = strip_shapes(gen.gen_cls(rng, rng.choice([0, 0, 1]), o_r))
+    if rng.random() < 0.3:
+        ty['info']['fields'], ty['ftys'] = [], []
+    wrap = rng.choice(UNION_WRAPS)
+    T = model.T
+    u = T('union', *members)
+    ft = {'bare': lambda: u, 'optional': lambda: T('union', *(members + [T('none')])), 'list': lambda: T('list', u), 'dictval': lambda: T('dict', T('str'), u),
+          'list-of-optional': lambda: T('list', T('union', *(members + [T('none')]))), 'vtuple': lambda: T('vtuple', u)}[wrap]()
+    dflt = {'optional': ['lit', None], 'list': ['list'], 'dictval': ['dict']}.get(wrap) if rng.random() < 0.5 else None
+    uname = _insert_field(rng, ty, ft, dflt)
+    if tagging.endswith('tag-key'):
+        meta['tag_key'] = rng.choice(['type', 'kind', 'my tag', '__tag__', 'tagKey'])
+    if tagging.startswith('auto'):
+        meta['auto_assign_tags'] = True
+    ty['info']['meta'] = meta
+    # history
+    alone = lambda: ['alone', rng.randrange(len(members)), rng.choice(['asdict', 'asdict', 'to_dict', 'to_json'])]
+    order = rng.choice(['member-first', 'member-first', 'member-first', 'root-first'])
+    steps = ([alone() for _ in range(rng.randint(1, len(members)))] if order == 'member-first' else []) + [['root']]
+    for _ in range(rng.randint(0, 2)):
+        steps += [alone() for _ in range(rng.randint(0, 2))] + [['root']]
+    return ty, members, uname, wrap, tagging, style, pair, order, steps
+
+
+def _union_value(rng, wrap, members, built, prefer):
+    insts = [gen.gen_instance(rng, m, built) for m in members]
+    rng.shuffle(insts)
+    first = next((v for v in insts if type(v).__name__ in prefer), insts[0]) if rng.random() < 0.8 else insts[0]
+    if wrap in ('bare', 'optional'):
+        return first
+    if wrap == 'dictval':
+        return {f'k{q_}': v for q_, v in enumerate(insts)}
+    if wrap == 'list-of-optional':
+        insts.insert(rng.randint(0, len(insts)), None)
+    return tuple(insts) if wrap == 'vtuple' else insts
+
+
+def member_histories(ctx, reqs, pend):
+    """what a class was used for on its own must not change what it is dumped as below a main class: the tag (also one the main class
+    assigns) under the main class's tag key, so that the main class's loader finds the member again"""
+    import random
+    from dataclass_wizard import asdict, fromdict
+    rng = random.Random(f'{ctx.prop_id}:{ctx.seed}:members')
+    n = ctx.quick(250, 4000)
+    ctx.rule += (' UNION MEMBERS ON THEIR OWN: a v1 main class holding a Union of 2-3 dataclasses (bare / Optional / list / dict value / list of Optional / '
+                 'variadic tuple) × tags declared by the members or assigned by the main class (auto_assign_tags) × tag key default or set by the main '
+                 'class × members Meta-less or declaring the same (v1_key_case, dump transform) × a history in which members are serialised on their '
+                 'own (asdict / to_dict / to_json) before the first use of the main class, or between two uses: every round trip of the main class '
+                 'is the identity (dict, JSON text, from_json).')
+    for j in range(n):
+        i = MH_BASE + j
+        if ctx.done(i):
+            break
+        ty, members, uname, wrap, tagging, style, pair, order, steps = member_case(rng)
+        try:
+            built = model.Built(ty)
+        except Exception as e:
+            ctx.count('build_error')
+            ctx.notes.setdefault('build_errors', []).append(repr(e)[:200])
+            continue
+        try:
+            mnames = [m['info']['name'] for m in members]
+            plan, prefer = [], set()
+            for st_ in steps:
+                if st_[0] == 'alone':
+                    plan.append(gen.gen_instance(rng, members[st_[1]], built))
+                    prefer.add(mnames[st_[1]])
+                else:
+                    x = gen.gen_instance(rng, ty, built)
+                    setattr(x, uname, _union_value(rng, wrap, members, built, prefer))
+                    plan.append(x)
+            if not ctx.begin_case(i):
+                continue
+            base = {'ty': ty, 'tagging': tagging, 'member_style': style, 'pair': list(pair), 'wrap': wrap, 'members': mnames,
+                    'steps': [[s_[0]] + ([mnames[s_[1]], s_[2]] if s_[0] == 'alone' else []) for s_ in steps]}
+            ctx.seen('member-history:' + order, dict(base, insts=[repr(v)[:200] for v in plan]))
+            ctx.count('member-history:' + tagging)
+            Cls = built.root
+            src = dict(src=built.source)
+            for step, (st_, x) in enumerate(zip(steps, plan)):
+                case = dict(base, step=step, inst=repr(x)[:500])
+                pre = f'step {step} of {base["steps"]} ({tagging}, members {style}, {wrap}): '
+                if st_[0] == 'alone':
+                    how = st_[2] if hasattr(x, st_[2]) else 'asdict'
+                    try:
+                        asdict(x) if how == 'asdict' else getattr(x, how)()
+                    except Exception as e:
+                        ctx.fail('member-history:alone', case, f'{pre}{how} of the member instance on its own raised {e!r}', detail=src)
+                    src['src'] += f'\n{how}(<{type(x).__name__} instance>)   # on its own'
+                    continue
+                src['src'] += f'\nfromdict({ty["info"]["name"]}, asdict(x))'
+                try:
+                    d = asdict(x)
+                except Exception as e:
+                    ctx.fail('member-history:dump', case, f'{pre}asdict raised {e!r}', detail=src)
+                    continue
+                key = _known_key(x)
+                check_rt(ctx, 'member-history:dict', case, load_outcome(lambda: fromdict(Cls, d)), x, src, key, pre)
+                try:
+                    jd = json.loads(json.dumps(d))
+                except Exception:
+                    continue
+                out_j = load_outcome(lambda: fromdict(Cls, jd))
+                check_rt(ctx, 'member-history:jsonified', case, out_j, x, src, key, pre)
+                if hasattr(Cls, 'from_json'):
+                    check_rt(ctx, 'member-history:json', case, load_outcome(lambda: Cls.from_json(x.to_json())), x, src, key, pre)
         finally:
             built.close()
 
